@@ -45,7 +45,8 @@ COMPONENTS = {
              "init_popen_io / get_execmodel (substituted after the shipped source has defined them)"],
 }
 
-PATHS = ["popen", "bare", "ssh", "ssh-config", "proxy-bare", "socket-bare", "vagrant", "vagrant-config"]
+PATHS = ["popen", "bare", "ssh", "ssh-config", "proxy-bare", "socket-bare", "vagrant", "vagrant-config",
+         "proxy-bare-mto", "socket-bare-mto"]
 BOOTLINE = "import sys;exec(eval(sys.stdin.readline()))"
 
 
@@ -100,7 +101,7 @@ def inspect(t, sub, res, hist):
                 ok = ok and a[2] == "default" and len(a) == 6 and a[-1].startswith("python -c ")
         else:
             ok = a[-2:] == ["-c", BOOTLINE] and "-u" in a
-            if t in ("bare", "proxy-bare", "socket-bare") and pr.name == "w1":
+            if t in ("bare", "proxy-bare", "socket-bare", "proxy-bare-mto", "socket-bare-mto") and pr.name == "w1":
                 ok = ok and a[:3] == ["/sim/bare-python3", "-S", "-E"]
             elif a[0] != "/sim/bare-python3":
                 ok = ok and a[0] == sys.executable
